@@ -262,7 +262,7 @@ func c06Enrich(t *rapid.T, ops []Op) []Op {
 			continue
 		}
 		live, dead := c06SortedKeys(s.live), c06SortedKeys(s.dead)
-		if len(live) >= 2 && coin("x-link", 5) {
+		if len(live) >= 2 && coin("x-link", 3) {
 			lk := Op{K: KLink, Idx: op.Idx, ID: rapid.SampledFrom(live).Draw(t, "lsrc"), ID2: rapid.SampledFrom(live).Draw(t, "ltgt"),
 				Rel: rapid.SampledFrom(uRels).Draw(t, "lrel"), W: 1, Why: "c06-link"}
 			if coin("linv", 4) {
